@@ -600,6 +600,64 @@ def rewrite_entry_or_insert_with(code, stats):
     returned ->  `{ let k_ = K; let fresh_ = if M.contains_key(&k_) { None } else { Some(B) }; M.slot_(k_, fresh_) }`
     (`slot_` is the prelude's stand-in for the occupied / vacant entry).  The closure body B is copied verbatim
     and becomes straight-line code, so what it does to the state it captures is verified."""
+    # R17b: the same API spelled out — `match M.entry(K) { Entry::Occupied(o) => A, Entry::Vacant(v) => B }` =
+    # `{ let k_ = K; if M.contains_key(&k_) { A } else { B } }` where, inside A, `o.into_mut()` is the stored value
+    # (`M.slot_(k_, None)`) and, inside B, `v.insert(X)` stores X under the key and yields it (`M.slot_(k_, Some(X))`)
+    for _ in range(4):
+        masked = mask_trivia(code)
+        m = re.search(r"\bmatch\s+((?:[\w.]|\(\))+?)\s*\.\s*entry\s*\(", masked)
+        if not m:
+            break
+        recv = re.sub(r"\s+", "", m.group(1))
+        op = m.end() - 1
+        cl = match_close(code, op, "(", ")")
+        key = code[op + 1:cl].strip()
+        mo = re.compile(r"\s*\{").match(masked, cl + 1)
+        if not mo:
+            raise ExtractError("R17b: match on entry(..) without arms")
+        ob = mo.end() - 1
+        cb = match_close(code, ob)
+        arms = {}
+        pos = ob + 1
+        while True:
+            am = re.compile(r"\s*(?:\w+\s*::\s*)*Entry\s*::\s*(Occupied|Vacant)\s*\(\s*(?:mut\s+)?(\w+)\s*\)\s*=>\s*").match(masked, pos)
+            if not am:
+                break
+            if masked[am.end()] == "{":
+                ae_ = match_close(code, am.end())
+                arm_body = code[am.end():ae_ + 1]
+                pos = ae_ + 1
+            else:
+                d_ = 0
+                k = am.end()
+                while k < cb:
+                    ch = masked[k]
+                    if ch in "([{":
+                        d_ += 1
+                    elif ch in ")]}":
+                        d_ -= 1
+                    elif ch == "," and d_ == 0:
+                        break
+                    k += 1
+                arm_body = code[am.end():k]
+                pos = k
+            mm_ = re.compile(r"\s*,").match(masked, pos)
+            if mm_:
+                pos = mm_.end()
+            arms[am.group(1)] = (am.group(2), arm_body)
+        if set(arms) != {"Occupied", "Vacant"} or masked[pos:cb].strip():
+            raise ExtractError("R17b: match on entry(..) with arms other than Occupied / Vacant")
+        ov, oa = arms["Occupied"]
+        vv, va = arms["Vacant"]
+        oa2, n1 = re.subn(r"\b%s\s*\.\s*into_mut\s*\(\s*\)" % re.escape(ov), "%s.slot_(k_, None)" % recv, oa)
+        vm_ = re.search(r"\b%s\s*\.\s*insert\s*\(" % re.escape(vv), mask_trivia(va))
+        if n1 != 1 or not vm_ or len(re.findall(r"\b%s\b" % re.escape(ov), mask_trivia(oa))) != 1 or len(re.findall(r"\b%s\b" % re.escape(vv), mask_trivia(va))) != 1:
+            raise ExtractError("R17b: entry arms use the entry otherwise than by into_mut() / insert(..)")
+        ie_ = match_close(va, vm_.end() - 1, "(", ")")
+        va2 = va[:vm_.start()] + "%s.slot_(k_, Some(%s))" % (recv, va[vm_.end():ie_]) + va[ie_ + 1:]
+        new = "{ let k_ = %s; if %s.contains_key(&k_) { %s } else { %s } }" % (key, recv, oa2, va2)
+        code = code[:m.start()] + new + code[cb + 1:]
+        stats["R17"] = stats.get("R17", 0) + 1
     for _ in range(4):
         masked = mask_trivia(code)
         m = re.search(r"\.\s*entry\s*\(", masked)
@@ -1827,6 +1885,7 @@ def inline_helpers(unit_text, names, paths, stats):
     no `return`) and only receivers / arguments that are plain paths (evaluating them twice changes nothing)."""
     for nm in names:
         body = params = None
+        multi_stmt = False
         # a name that is defined more than once in the searched files (e.g. once per flavour of a twin type) cannot be
         # resolved without types: it is not inlined
         n_defs = 0
@@ -1854,7 +1913,9 @@ def inline_helpers(unit_text, names, paths, stats):
                 bm_ = mask_trivia(b_)
                 if "$" in b_ or re.search(r"\breturn\b", bm_):
                     continue
-                # single expression: no `;` at depth 0
+                # single expression: no `;` at depth 0.  A body of several statements is inlined as a block expression
+                # (`({ .. })`) provided it has no `return` / `?` (they would leave the CALLER) and defines no macro /
+                # nested fn; the names it binds must not capture the receiver or an argument (checked at the call site)
                 d_ = 0
                 single = True
                 for ch in bm_:
@@ -1865,9 +1926,10 @@ def inline_helpers(unit_text, names, paths, stats):
                     elif ch == ";" and d_ == 0:
                         single = False
                         break
-                if not single:
+                if not single and ("?" in bm_ or re.search(r"\b(fn|macro_rules|loop|while|for|async|await)\b", bm_)):
                     continue
                 body, params = b_, _split_args(src[dm.end():pe])
+                multi_stmt = not single
                 break
             if body is not None:
                 break
@@ -1907,13 +1969,32 @@ def inline_helpers(unit_text, names, paths, stats):
             args = _split_args(unit_text[cm.end():ae])
             if len(args) != len(pnames) or any(not re.match(r"^[&*\s\w.]+$", a) for a in args):
                 break
+            if multi_stmt:
+                bound_ = set(re.findall(r"\blet\s+(?:mut\s+)?(\w+)", mask_trivia(body))) | set(re.findall(r"\b(?:Some|Ok|Err)\(\s*(?:mut\s+|ref\s+)?(\w+)\s*\)\s*=", mask_trivia(body))) | set(re.findall(r"\|\s*(?:mut\s+)?(\w+)\s*[|,:]", mask_trivia(body)))
+                roots_ = set(re.match(r"^[&*\s]*(?:mut\s+)?(\w+)", a).group(1) for a in args if re.match(r"^[&*\s]*(?:mut\s+)?(\w+)", a))
+                if recv_:
+                    roots_.add(re.match(r"^(\w+)", recv_).group(1) if re.match(r"^(\w+)", recv_) else "")
+                if (roots_ - {"self"}) & bound_:
+                    break
             b2 = body
             if has_self:
                 b2 = re.sub(r"(?<![\w.])self\b", recv_.replace("\\", "\\\\"), b2)
             for pn, av in zip(pnames, args):
                 av2 = re.sub(r"^&\s*(mut\s+)?", "", av.strip())
                 b2 = re.sub(r"(?<![\w.])%s\b" % re.escape(pn), av2, b2)
-            unit_text = unit_text[:start_] + "(" + b2 + ")" + unit_text[ae + 1:]
+            # a body made of block-like statements followed by a tail expression (`for .. { .. } self.observer`: no `;`
+            # at depth 0, yet not ONE expression) is inlined as a block expression
+            bm2_ = mask_trivia(b2)
+            d2_ = 0
+            blocky = False
+            for ix_, ch in enumerate(bm2_):
+                if ch in "([{":
+                    d2_ += 1
+                elif ch in ")]}":
+                    d2_ -= 1
+                    if ch == "}" and d2_ == 0 and bm2_[ix_ + 1:].strip() and not re.match(r"\s*(else\b|\.|\?|\))", bm2_[ix_ + 1:]):
+                        blocky = True
+            unit_text = unit_text[:start_] + ("({ " + b2 + " })" if (blocky or multi_stmt) else "(" + b2 + ")") + unit_text[ae + 1:]
             stats["R16"] = stats.get("R16", 0) + 1
     return unit_text
 
